@@ -1526,6 +1526,10 @@ def scenarios_registered(seed, n):
         sname, sbase = sb['sub']
         cname = f'Rg{seed % 1000}x{i}'
         ge.decl['classes'].append({'name': cname, 'fields': [{'name': 'x', 'ty': 'int'}], 'opts': {}, 'hook': None})
+        # ... and a class that has the first one as the type of a FIELD (a handler keyed on a dataclass type beats the type's own
+        # converter protocol wherever the type occurs, also as a bare field type of another dataclass)
+        oname = cname + 'O'
+        ge.decl['classes'].append({'name': oname, 'fields': [{'name': 'p', 'ty': {'cls': [cname, []]}}, {'name': 'q', 'ty': 'int', 'default': {'value': {'i': '0'}}}], 'opts': {}, 'hook': None})
         # (not the base scalar of the user subclass: its converter hands a handler's product to the subclass constructor, a value the
         # per-scenario table of stdlib results does not list)
         heads = r.sample([h for h in ['int', 'str', ename, sname, 'list', 'dict', cname, 'float'] if h != sbase], r.randint(1, 4))
@@ -1539,8 +1543,12 @@ def scenarios_registered(seed, n):
         if r.random() < 0.35:
             hs = {'globals': [{'entries': [[r.choice(heads), 'tagint:11']], 'exactOnly': r.random() < 0.5}]}
         target = r.choice(['int', 'str', en, sb, {'seq': ['list', 'int']}, {'map': ['dict', ['str', 'int']]}, {'cls': [cname, []]}, 'float',
-                           {'seq': ['list', en]}, {'union': [sb, 'NoneType']}, {'tuple': ['int', sb]}])
-        v = r.choice([5, 2, 'a', [1, 2], {'k': 1}, {'x': 4}, 2.5, None, [5, 5]])
+                           {'seq': ['list', en]}, {'union': [sb, 'NoneType']}, {'tuple': ['int', sb]}, {'cls': [oname, []]}, {'cls': [oname, []]},
+                           {'seq': ['list', {'cls': [cname, []]}]}])
+        v = r.choice([5, 2, 'a', [1, 2], {'k': 1}, {'x': 4}, 2.5, None, [5, 5], {'p': 5}, {'p': {'x': 4}}, {'p': 7, 'q': 2}])
+        if cname in json.dumps(target) and r.random() < 0.6:
+            # a call-level handler keyed on the dataclass type itself (mapping form or function form)
+            hs = {'globals': [{'entries': [[cname, 'tagint:13']], 'exactOnly': r.random() < 0.5}]}
         sc = {'id': f'rg{seed}:{i}', 'decl': ge.decl, 'op': r.choice(['from_data', 'from_data', 'build']), 'ty': target, 'val': ENC.enc(v), 'spell': 0,
               'stream': 'registered', 'registered': reg}
         if hs:
